@@ -6,6 +6,7 @@ import (
 	"fmt"
 	"reflect"
 	"strings"
+	"time"
 
 	"gitee.com/xuesongtao/protoc-go-valid/valid"
 	"verif/internal/carrier"
@@ -94,6 +95,14 @@ func values() []tval {
 	add("*string/nil", (*string)(nil), true, true, false)
 	add("*string/->empty", &es, false, false, false)
 	add("*string/->x", &xs, false, false, false)
+	// pointers to time.Time (timestamps of generated messages)
+	now := time.Date(2024, 2, 29, 12, 0, 0, 0, time.UTC)
+	var zt time.Time
+	add("*time.Time/nil", (*time.Time)(nil), true, true, false)
+	add("*time.Time/->zero", &zt, false, false, false)
+	add("*time.Time/->now", &now, false, false, false)
+	// (fields of type time.Time itself are left out by the library on purpose - validstruct.go drops them from the
+	// field table - so they are not a "supported field type" in the sense of the property)
 	return out
 }
 
